@@ -500,13 +500,22 @@ func (g *G) loopVarName(sc *scope) string {
 			return c
 		}
 	}
-	g.fn.loopVar++
-	n := fmt.Sprintf("i%d", g.fn.loopVar)
-	g.fn.names[n] = true
-	return n
+	// (a closure has its own counter but shares the enclosing function's name set: skip names
+	// that are taken, otherwise the closure reuses the outer function's i1, i2, …)
+	for {
+		g.fn.loopVar++
+		n := fmt.Sprintf("i%d", g.fn.loopVar)
+		if g.fn.names[n] {
+			continue
+		}
+		g.fn.names[n] = true
+		return n
+	}
 }
 
 func (g *G) forStmt(sc *scope, depth int) []string {
+	g.fn.loopDepth++
+	defer func() { g.fn.loopDepth-- }()
 	switch g.pick("forkind", 4) {
 	case 0, 1: // three-clause loop
 		g.label("for-3clause")
@@ -514,7 +523,14 @@ func (g *G) forStmt(sc *scope, depth int) []string {
 		bound := fmt.Sprintf("%d", 1+g.pick("forbound", 6))
 		sl := g.varsOf(sc, func(v *Var) bool { return v.T.K == KSlice })
 		if len(sl) > 0 && g.chance("forlen", 35) {
-			bound = "uint64(len(" + use(sl[g.pick("forlenidx", len(sl))]) + "))"
+			bv := sl[g.pick("forlenidx", len(sl))]
+			bound = "uint64(len(" + use(bv) + "))"
+			// the bound is re-evaluated every iteration: the body must not grow that slice
+			if g.fn.lenBound == nil {
+				g.fn.lenBound = map[string]int{}
+			}
+			g.fn.lenBound[bv.Name]++
+			defer func() { g.fn.lenBound[bv.Name]-- }()
 		}
 		start := g.pick("forstart", 3)
 		inner := &scope{parent: sc}
@@ -550,6 +566,8 @@ func (g *G) forStmt(sc *scope, depth int) []string {
 }
 
 func (g *G) rangeStmt(sc *scope, depth int) []string {
+	g.fn.loopDepth++
+	defer func() { g.fn.loopDepth-- }()
 	sl := g.varsOf(sc, func(v *Var) bool { return v.T.K == KSlice })
 	ms := g.varsOf(sc, func(v *Var) bool { return v.T.K == KMap && v.NonNil && v.T.Elem.IsInt() && v.T.Key.K == KU64 })
 	if len(ms) > 0 && (len(sl) == 0 || g.chance("rangemap", 40)) {
@@ -746,8 +764,26 @@ func (g *G) callStmt(sc *scope, depth int) []string {
 }
 
 func (g *G) appendStmt(sc *scope, depth int) []string {
+	if g.fn.loopDepth >= 2 {
+		// appending inside nested loops lets slices (and with them every loop bounded by their
+		// length) grow exponentially: the Go run then takes millions of iterations
+		return nil
+	}
 	vs := g.mutableVars(sc, func(v *Var) bool { return v.T.K == KSlice })
 	if len(vs) == 0 {
+		return nil
+	}
+	if g.fn.inClosure {
+		// a closure appending to a captured slice could be called from a loop bounded by its length
+		return nil
+	}
+	var ok []*Var
+	for _, v := range vs {
+		if g.fn.lenBound[v.Name] == 0 {
+			ok = append(ok, v)
+		}
+	}
+	if vs = ok; len(vs) == 0 {
 		return nil
 	}
 	v := vs[g.pick("appendvar", len(vs))]
@@ -838,7 +874,7 @@ func (g *G) closureStmt(sc *scope, depth int) []string {
 	captured := g.mutableVars(sc, func(v *Var) bool { return v.T.Scalar() && !v.LoopVar })
 	mutate := !saved.pure && len(captured) > 0 && g.chance("clmutate", 50)
 	sig.Pure = !mutate
-	g.fn = &fnCtx{sig: sig, pure: true, labels: saved.labels, names: saved.names, budget: 20}
+	g.fn = &fnCtx{sig: sig, pure: true, labels: saved.labels, names: saved.names, budget: 20, inClosure: true}
 	var body []string
 	if mutate {
 		cv := captured[g.pick("clcap", len(captured))]
